@@ -381,7 +381,7 @@ pub fn expected_units(p: &Program) -> Vec<XUnit> {
                             let ended: u64 = rows
                                 .iter()
                                 .map(|r| match r.form {
-                                    RowForm::ColsOpen => 0,
+                                    RowForm::ColsOpen | RowForm::ShortEndRow => 0,
                                     RowForm::EndRowTimes(n) => n,
                                     _ => 1,
                                 })
@@ -392,7 +392,7 @@ pub fn expected_units(p: &Program) -> Vec<XUnit> {
                 } else {
                     // (a row without cells in a resultset with columns is one the shim gave up before
                     // writing anything - see gens::gen_row: it is not part of the response)
-                    out.push(XUnit::Set { cols: cols.clone(), rows: rows.iter().filter(|r| !r.cells.is_empty()).map(|r| r.cells.clone()).collect(), err });
+                    out.push(XUnit::Set { cols: cols.clone(), rows: rows.iter().filter(|r| !r.cells.is_empty() && r.form != RowForm::ShortEndRow).map(|r| r.cells.clone()).collect(), err });
                 }
             }
         }
